@@ -196,6 +196,9 @@ fn extra_templates() -> Vec<(&'static str, T)> {
         ("READ A(I)", T::S(Stmt::Read(vec![lvi("A", vec![var("I")])]))),
         ("READ B$(2)", T::S(Stmt::Read(vec![lvi("B$", vec![num(2.0)])]))),
         ("REM c", T::S(Stmt::Rem(" c".into()))),
+        ("DEF FND(X,Y)=X*10+Y", T::S(Stmt::Def("FND".into(), vec!["X".into(), "Y".into()], bin(Add, bin(Mul, var("X"), num(10.0)), var("Y"))))),
+        ("PRINT FND(1,X)", T::S(pe(call("FND", vec![num(1.0), var("X")])))),
+        ("PRINT FND(Y,FND(2,Y))", T::S(pe(call("FND", vec![var("Y"), call("FND", vec![num(2.0), var("Y")])])))),
         ("READ I,A(I)", T::S(Stmt::Read(vec![lv("I"), lvi("A", vec![var("I")])]))),
         ("DATA 3,42,2,7", T::S(Stmt::Data(vec![DataItem::N(3.0), DataItem::N(42.0), DataItem::N(2.0), DataItem::N(7.0)]))),
         ("K=5", T::S(assign("K", num(5.0)))),
@@ -259,6 +262,11 @@ pub fn array_menu() -> Vec<(&'static str, T)> {
 /// IF / ELSE lines combined with subroutines and loops.
 pub fn branch_menu() -> Vec<(&'static str, T)> {
     pick(&["IF X THEN PRINT 1", "IF X THEN PRINT 1 ELSE PRINT 2", "IF X=0 THEN GOSUB sub ELSE PRINT \"NO\"", "IF X THEN X=5", "IF X THEN last", "IF X THEN GOSUB sub", "X=X+1", "PRINT X", "GOTO first", "RETURN", "FOR I=1 TO 2", "NEXT I", "IF X THEN GOSUB sub ELSE PRINT \"NO\"", "IF X=0 THEN PRINT 1/0"])
+}
+
+/// Functions of two parameters called with arguments that mention the parameters' names.
+pub fn fn2_menu() -> Vec<(&'static str, T)> {
+    pick(&["DEF FND(X,Y)=X*10+Y", "PRINT FND(1,X)", "PRINT FND(Y,FND(2,Y))", "X=X+1", "Y=3", "PRINT X;Y"])
 }
 
 /// Loops whose limit, step or start mention the loop's own variable.
